@@ -11,11 +11,12 @@ import (
 )
 
 // C15: LinearLeastSquares (op 0), PolynomialRegression (op 1), LOESS (op 2).
-// A basis term of op 0: kind 0 (x-A)^P, 1 sin(A x), 2 cos(A x), 3 exp(A x).
+// A basis term of op 0: kind 0 (x-A)^P, 1 sin(A x), 2 cos(A x), 3 exp(A x), 4 the polynomial sum_k C[k] x^k.
 type c15Term struct {
-	Kind int `json:"kind"`
-	A    F64 `json:"a"`
-	P    int `json:"p,omitempty"`
+	Kind int   `json:"kind"`
+	A    F64   `json:"a"`
+	P    int   `json:"p,omitempty"`
+	C    []F64 `json:"c,omitempty"`
 }
 type c15Case struct {
 	Op    int       `json:"op"`
@@ -42,6 +43,12 @@ func c15TermValue(t c15Term, x float64) float64 {
 		return math.Sin(a * x)
 	case 2:
 		return math.Cos(a * x)
+	case 4:
+		v := 0.0
+		for k := len(t.C) - 1; k >= 0; k-- {
+			v = v*x + float64(t.C[k])
+		}
+		return v
 	default:
 		return math.Exp(a * x)
 	}
@@ -116,7 +123,10 @@ func c15Run(raw []byte) (*Line, error) {
 			return nil, fmt.Errorf("no basis")
 		}
 		for _, t := range c.Basis {
-			if t.Kind < 0 || t.Kind > 3 || t.P < 0 || t.P > 8 || math.IsNaN(float64(t.A)) || math.IsInf(float64(t.A), 0) || math.Abs(float64(t.A)) > 64 {
+			if t.Kind == 4 && (len(t.C) == 0 || len(t.C) > 6 || !finiteAll(fromF64s(t.C))) {
+				return nil, fmt.Errorf("bad polynomial term")
+			}
+			if t.Kind < 0 || t.Kind > 4 || t.P < 0 || t.P > 8 || math.IsNaN(float64(t.A)) || math.IsInf(float64(t.A), 0) || math.Abs(float64(t.A)) > 64 {
 				return nil, fmt.Errorf("bad term")
 			}
 		}
@@ -437,6 +447,10 @@ func c15Gen(tier string, rng *rand.Rand, emit func(interface{})) {
 		if rng.Intn(2) == 0 {
 			c.HasW = true
 			c.W = toF64s(c15Weights(rng, n, len(basis) <= 3))
+			if rng.Intn(4) == 0 && n > len(basis)+3 { // zero weights: those observations drop out of the fit
+				c.W[rng.Intn(n)] = 0
+				c.W[rng.Intn(n)] = 0
+			}
 		}
 		emit(c)
 	}
@@ -555,6 +569,198 @@ func c15Gen(tier string, rng *rand.Rand, emit func(interface{})) {
 			qs = append(qs, snap(s[0]+(s[n-1]-s[0])*rng.Float64()))
 		}
 		emit(c15Case{Op: 2, Xs: toF64s(xs), Ys: toF64s(ys), Deg: deg, Span: F64(span), Qs: toF64s(qs)})
+	}
+	c15GenEdge(rng, mul, emit)
+}
+
+// c15GenEdge: the thin places of the streams above, made explicit.
+func c15GenEdge(rng *rand.Rand, mul int, emit func(interface{})) {
+	ints := func(n, lo, hi int) []float64 {
+		v := make([]float64, n)
+		for i := range v {
+			v[i] = float64(lo + rng.Intn(hi-lo+1))
+		}
+		return v
+	}
+	// ---- LinearLeastSquares called directly with 1, 2, 3, 4 terms drawn at random from non-constant
+	// polynomials (x, x^2, 1+x, x^3-x, (x-a)^p ...), sin, cos, exp: in particular a SINGLE non-constant term,
+	// two terms without a constant, the same basis in another order; with weights (some zero) and without ----
+	for it := 0; it < 60*mul; it++ {
+		k := 1 + it%4
+		if it%8 >= 4 {
+			k = 1 + rng.Intn(2)
+		}
+		var basis []c15Term
+		for len(basis) < k {
+			var t c15Term
+			switch rng.Intn(8) {
+			case 0, 1:
+				t = c15Term{Kind: 0, A: F64(float64(rng.Intn(9)-4) / 4), P: 1 + rng.Intn(3)}
+			case 2, 3, 4:
+				d := 1 + rng.Intn(3)
+				cf := make([]F64, d+1)
+				for i := range cf {
+					cf[i] = F64(rng.Intn(7) - 3)
+				}
+				if cf[d] == 0 {
+					cf[d] = 1
+				}
+				t = c15Term{Kind: 4, C: cf}
+			case 5:
+				t = c15Term{Kind: 1 + rng.Intn(2), A: F64(float64(1+rng.Intn(4)) / 2)}
+			case 6:
+				t = c15Term{Kind: 3, A: F64(float64(rng.Intn(5)-2) / 2)}
+				if t.A == 0 {
+					t.A = 1
+				}
+			default:
+				t = c15Term{Kind: 0, P: 0}
+				if k == 1 {
+					continue // a single constant term is covered above
+				}
+			}
+			basis = append(basis, t)
+		}
+		n := k + 2 + rng.Intn(9)
+		xs := c15Xs(rng, n, rng.Intn(2))
+		ys := make([]float64, n)
+		switch it % 3 {
+		case 0: // in the span of the basis (up to rounding of the term values)
+			for i, x := range xs {
+				for _, t := range basis {
+					ys[i] += 2 * c15TermValue(t, x)
+				}
+			}
+		case 1:
+			ys = ints(n, -16, 16)
+		default:
+			for i := range ys {
+				ys[i] = c15Dyadic(rng, 64)
+			}
+		}
+		c := c15Case{Op: 0, Xs: toF64s(xs), Ys: toF64s(ys), Basis: basis}
+		if it%2 == 1 {
+			c.HasW = true
+			c.W = toF64s(c15Weights(rng, n, k <= 2))
+			if it%6 == 1 {
+				c.W[rng.Intn(n)] = 0
+			}
+		}
+		emit(c)
+	}
+	// ---- singular designs: Go's solver reports an error that LinearLeastSquares drops; the model says
+	// FSingular and makes no claim on the numbers, but a panic or a modified argument is still a mismatch ----
+	for it := 0; it < 4*mul; it++ {
+		deg := 1 + rng.Intn(3)
+		n := deg + 2 + rng.Intn(4)
+		vals := c15Xs(rng, deg, 0) // only deg distinct abscissae for deg+1 coefficients
+		xs := make([]float64, n)
+		for i := range xs {
+			xs[i] = vals[i%deg]
+		}
+		emit(c15Case{Op: 1, Xs: toF64s(xs), Ys: toF64s(ints(n, -8, 8)), Deg: deg, Qs: toF64s([]float64{0, 1})})
+		// the same term twice
+		n = 4 + rng.Intn(5)
+		emit(c15Case{Op: 0, Xs: toF64s(c15Xs(rng, n, 0)), Ys: toF64s(ints(n, -8, 8)),
+			Basis: []c15Term{{Kind: 0, P: 0}, {Kind: 0, P: 1}, {Kind: 0, P: 1}}})
+		// zero weights leave fewer positive-weight observations than terms
+		w := make([]float64, n)
+		w[rng.Intn(n)] = 1
+		w[rng.Intn(n)] = 2
+		emit(c15Case{Op: 0, Xs: toF64s(c15Xs(rng, n, 0)), Ys: toF64s(ints(n, -8, 8)), HasW: true, W: toF64s(w),
+			Basis: []c15Term{{Kind: 0, P: 0}, {Kind: 0, P: 1}, {Kind: 0, P: 2}}})
+	}
+	// ---- PolynomialRegression with repeated abscissae (replicated observations), still >= deg+1 distinct,
+	// and with several zero weights ----
+	for it := 0; it < 24*mul; it++ {
+		deg := rng.Intn(5)
+		nd := deg + 1 + rng.Intn(4)
+		vals := c15Xs(rng, nd, 0)
+		n := nd + 1 + rng.Intn(6)
+		xs := make([]float64, n)
+		for i := range xs {
+			if i < nd {
+				xs[i] = vals[i]
+			} else {
+				xs[i] = vals[rng.Intn(nd)]
+			}
+		}
+		rng.Shuffle(n, func(i, j int) { xs[i], xs[j] = xs[j], xs[i] })
+		c := c15Case{Op: 1, Xs: toF64s(xs), Ys: toF64s(ints(n, -16, 16)), Deg: deg, Qs: toF64s(c15Queries(rng, xs, 7))}
+		if it%2 == 0 {
+			c.HasW = true
+			c.W = toF64s(c15Weights(rng, n, false))
+			if it%4 == 0 { // zero weights on the replicates only: the design stays regular
+				for i := range xs {
+					if rng.Intn(3) == 0 {
+						first := true
+						for j := 0; j < i; j++ {
+							if xs[j] == xs[i] {
+								first = false
+							}
+						}
+						if !first {
+							c.W[i] = 0
+						}
+					}
+				}
+			}
+		}
+		emit(c)
+	}
+	// ---- LOESS, sorted input with repeated abscissae (ties at the window boundary and inside) ----
+	for it := 0; it < 24*mul; it++ {
+		deg := rng.Intn(2)
+		nd := 4 + rng.Intn(8)
+		vals := c15Xs(rng, nd, 0)
+		n := nd + 1 + rng.Intn(5)
+		xs := make([]float64, n)
+		for i := range xs {
+			if i < nd {
+				xs[i] = vals[i]
+			} else {
+				xs[i] = vals[rng.Intn(nd)]
+			}
+		}
+		sort.Float64s(xs)
+		span := float64(deg+3+rng.Intn(4)) / float64(n)
+		q := int(math.Ceil(span * float64(n)))
+		if q > n {
+			q = n
+		}
+		qs := []float64{xs[0], xs[n-1], xs[rng.Intn(n)], xs[0] - 0.5, xs[n-1] + 0.25}
+		for i := 0; i+q < n && len(qs) < 9; i += 1 + rng.Intn(3) {
+			m := (xs[i] + xs[i+q]) / 2
+			qs = append(qs, m, m+1.0/64)
+		}
+		emit(c15Case{Op: 2, Xs: toF64s(xs), Ys: toF64s(ints(n, -8, 8)), Deg: deg, Span: F64(span), Qs: toF64s(qs)})
+	}
+	// ---- LOESS window width: span*n exactly an integer j, and span one ulp either side (ceil boundary);
+	// n = q+1 (the search has a single position to decide); n = q; queries far outside the data ----
+	for it := 0; it < 12*mul; it++ {
+		deg := rng.Intn(3)
+		n := deg + 4 + rng.Intn(12)
+		if it%3 == 0 { // n a power of two: j/n is a binary64 number and span*n = j exactly
+			n = 8 << uint(rng.Intn(2))
+		}
+		xs := c15Xs(rng, n, 0)
+		if it%4 != 1 {
+			sort.Float64s(xs)
+		}
+		s := append([]float64{}, xs...)
+		sort.Float64s(s)
+		ys := ints(n, -8, 8)
+		j := deg + 2 + rng.Intn(n-deg-2) // deg+2 <= j <= n-1
+		if it%4 == 0 {
+			j = n - 1 // q = n-1: the search decides between two windows only
+		}
+		base := float64(j) / float64(n)
+		lo, hi := s[0], s[n-1]
+		qs := []float64{lo, hi, s[n/2], lo - 3*(hi-lo), hi + 3*(hi-lo), (lo + hi) / 2,
+			(s[0] + s[j]) / 2, (s[n-1-j] + s[n-1]) / 2, (s[n-1-j]+s[n-1])/2 + 1.0/64}
+		for _, span := range []float64{base, math.Nextafter(base, 0), math.Nextafter(base, 2)} {
+			emit(c15Case{Op: 2, Xs: toF64s(xs), Ys: toF64s(ys), Deg: deg, Span: F64(span), Qs: toF64s(qs)})
+		}
 	}
 }
 
